@@ -41,7 +41,8 @@ def make_sandbox(k):
     sh(["git", "-C", "/repo", "worktree", "add", "--detach", root + "/repo", "HEAD"])
     sh(["rsync", "-a", "--exclude", "work", "--exclude", "target", "--exclude", ".git", "--exclude", "seeded", V + "/", root + "/verif/"])
     ct = root + "/verif/harness/Cargo.toml"
-    open(ct, "w").write(open(ct).read().replace('path = "/repo"', f'path = "{root}/repo"'))
+    txt = open(ct).read().replace('path = "/repo"', f'path = "{root}/repo"')
+    open(ct, "w").write(txt)
     return root
 
 def worker(k, q, tier, lock):
@@ -77,18 +78,19 @@ def worker(k, q, tier, lock):
 
 def main():
     a = sys.argv[1:]
-    n, tier, ids = 3, "quick", []
+    n, tier, ids, base = 3, "quick", [], 0
     i = 0
     while i < len(a):
         if a[i] == "--sandboxes": n = int(a[i + 1]); i += 2
         elif a[i] == "--tier": tier = a[i + 1]; i += 2
+        elif a[i] == "--base": base = int(a[i + 1]); i += 2
         else: ids.append(a[i]); i += 1
     if not ids:
         ids = sorted(os.path.basename(d) for d in glob.glob(os.path.join(V, "seeded", "*")))
     q = queue.Queue()
     for m in ids: q.put(m)
     lock = threading.Lock()
-    ts = [threading.Thread(target=worker, args=(k, q, tier, lock)) for k in range(n)]
+    ts = [threading.Thread(target=worker, args=(k + base, q, tier, lock)) for k in range(n)]
     for t in ts: t.start()
     for t in ts: t.join()
 
